@@ -28,8 +28,8 @@ class P(vlib.Prop):
     assumptions = (
         "file contents and link targets are compared by number: equal numbers <=> equal bytes (the code compares SHA-1 sums; collisions are outside the model)",
         "the filesystem is a flat map from canonical paths to nodes (no directory is reachable under two names except through symbolic links, which the model resolves as getNode/MkdirAll/openFile do); still declined (reported as a mismatch if generated): hard links to anything but a regular file, on the directory backend hard links whose target name is a link and absolute link targets (they resolve against the host's root)",
-        "one package shipping a path twice is modelled (rule table against itself; the writer keeps the last header of a name and writes it once per occurrence, Model/InstallDb.v) "
-        "except for what tarfs then READS: it fetches bytes by name from the package's index (finding C07-F17) - the generator does not re-ship the target of a hard link inside one package, a probe replays it",
+        "one package shipping a path twice is modelled: rule table against itself; the writer keeps the last header of a name and writes it once per occurrence (Model/InstallDb.v); "
+        "tarfs fetches a node's bytes by the entry's name from the package's index (Model/InstallRead.v, finding C07-F17): the entry name of a node is reconstructed from the packages (own path, hard-link chain, header with these bytes)",
         "xattrs and timestamps: lib/apk/db/installed records neither (no field in the model); what SetXattr/Chtimes do to the tree is not observed; scripts.tar and triggers are not observed",
         "versioned replaces entries (name<ver) are compared as raw strings by both backends and therefore never count as a declaration; the model and the spec read them the same way",
     )
@@ -46,7 +46,8 @@ class P(vlib.Prop):
                   "packages agree); hard links: a regular file with some package's bytes. Hard links are also modelled as names over a node heap: no step changes a node in "
                   "place, only the header's own name is re-bound (every other name keeps its content: c07_hardlink_names_keep_content, with the switch goextract reads off "
                   "writeHeader/link), and the flat model is exactly the reader's view of it. One package shipping a path twice: the later copy wins unless the bytes are the "
-                  "same, the writer records the last header per name once per occurrence (equal to f_db when no path repeats; refuted as truthful otherwise, C07-F16). "
+                  "same, the writer records the last header per name once per occurrence (equal to f_db when no path repeats; refuted as truthful otherwise, C07-F16); "
+                  "what a reader of tarfs gets (bytes by entry name) is the tree itself when no name repeats (C07-F17 witness otherwise). "
                   "The model the correspondence runs "
                   "(install_l) additionally resolves paths through symbolic links and is proved to answer as the model of the theorems wherever that one answers. "
                   "The model is tied to the code by differential comparison of error class, final tree and parsed database text on all three backends, and the "
